@@ -217,7 +217,9 @@ def handle (args : List String) (impl : String) : Verdict :=
                     else if ok then none else some "configured-ne-selected",
           trivial := ops.length < 2 }
     | _, _, _ => bad "hist-parse"
-  | ["world", wp, opsS] =>
+  | ["world", wpShape, opsS] =>
+    -- `<wp>[:<shape>]`: the shape of the ingress (rule / defaultBackend only / tls only) does not enter the Spec
+    let wp := (wpShape.splitOn ":").headD ""
     match parseCfg wp, parseList parseOp2 opsS with
     | some cfg, some ops =>
       -- states after each op
